@@ -254,7 +254,7 @@ def gen_history(rng):
             if q["kind"] == "maxmarg":
                 q["virtual"] = []
         elif eng == "bp":
-            q["kind"] = rng.choice(["query", "query", "query_nj", "map", "calibrate"])
+            q["kind"] = rng.choice(["query", "query", "query_nj", "map", "calibrate", "max_calibrate"])
         elif eng == "ci":
             q["kind"] = "query"
             do = rng.choice(nodes)
@@ -334,6 +334,17 @@ def _ask(engines, bn, q, model):
                 if v in clique:
                     b = beliefs[clique]
                     m = b.marginalize([x for x in b.variables if x != v], inplace=False).normalize(inplace=False)
+                    return fac(m)
+            raise KeyError(v)
+        if q["kind"] == "max_calibrate":
+            # max-calibrate, then read the max-marginal of v off the first clique belief that contains v
+            e.max_calibrate()
+            v = q["query"][0]
+            beliefs = e.get_clique_beliefs()
+            for clique in sorted(beliefs, key=lambda c: sorted(map(repr, c))):
+                if v in clique:
+                    b = beliefs[clique]
+                    m = b.maximize([x for x in b.variables if x != v], inplace=False).normalize(inplace=False)
                     return fac(m)
             raise KeyError(v)
     if q["eng"] == "ci":
